@@ -1,7 +1,340 @@
 import WM.Proto
+import Std.Data.HashMap
 import WM.Model.Varint
+import WM.Model.IdSets
+import WM.Spec.IdSet
+import WM.Model.NumLists
+import WM.Model.HashFile
+import WM.Model.Sort
+import WM.Model.Compound
+import WM.Model.Base85
 namespace WM.Drv.C20
-open WM.Proto
+open WM.Proto WM.IdSets
+
+/-! ## id sets: op programs over the model and over the spec -/
+
+def showErr : Err → String
+  | .index => "err-index"
+  | .value => "err-value"
+  | .type => "err-type"
+  | .notImpl => "err-notimpl"
+
+def showE {α} (f : α → String) : Except Err α → String
+  | .ok a => f a
+  | .error e => showErr e
+
+def showOptNat : Option Nat → String := showOpt toString
+
+def other? : SExp → Option Other
+  | .list [.atom "B", l] => (l.natList?).map fun xs => Other.bits (ofSource xs true 0)
+  | .list [.atom "L", l] => (l.natList?).map fun xs => Other.list xs true
+  | .list [.atom "G", l] => (l.natList?).map fun xs => Other.list xs false
+  | _ => none
+
+/-- One op on a `BitSet`; returns the new state and the observation. -/
+def bitsOp (bits : Bits) : SExp → Option (Bits × String)
+  | .list [.atom "add", i] => i.nat? >>= fun i => let b := add bits i; some (b, showNatList b)
+  | .list [.atom "discard", i] => i.nat? >>= fun i => let b := discard bits i; some (b, showNatList b)
+  | .list [.atom "update", o] => other? o >>= fun o => let b := update bits o; some (b, showNatList b)
+  | .list [.atom "iupd", o] => other? o >>= fun o => let b := intersectionUpdate bits o; some (b, showNatList b)
+  | .list [.atom "dupd", o] => other? o >>= fun o => let b := differenceUpdate bits o; some (b, showNatList b)
+  | .list [.atom "invupd", n] => n.nat? >>= fun n =>
+      match invertUpdate bits n with
+      | .ok b => some (b, showNatList b)
+      | .error e => some (bits, showErr e)
+  | .list [.atom "clear"] => let b := clear bits; some (b, showNatList b)
+  | .list [.atom "union", o] => other? o >>= fun o => some (bits, showNatList (union bits o))
+  | .list [.atom "inter", o] => other? o >>= fun o => some (bits, showNatList (intersection bits o))
+  | .list [.atom "diff", o] => other? o >>= fun o => some (bits, showNatList (difference bits o))
+  | .list [.atom "invert", n] => n.nat? >>= fun n => some (bits, showE showNatList (invertUpdate bits n))
+  | .list [.atom "copy"] => some (bits, showNatList bits)
+  | .list [.atom "contains", i] => i.nat? >>= fun i => some (bits, showBool (contains bits i))
+  | .list [.atom "iter"] => some (bits, showNatList (iter bits))
+  | .list [.atom "len"] => some (bits, showE toString (len bits))
+  | .list [.atom "bool"] => some (bits, showBool (nonzero bits))
+  | .list [.atom "first"] => some (bits, showE showOptNat (first bits))
+  | .list [.atom "last"] => some (bits, showE showOptNat (last bits))
+  | .list [.atom "before", i] => i.int? >>= fun i => some (bits, showE showOptNat (before bits i))
+  | .list [.atom "after", i] => i.int? >>= fun i => some (bits, showE showOptNat (after bits i))
+  | _ => none
+
+/-- One op on a `SortedIntSet` (state = `data`). -/
+def sisOp (data : List Nat) : SExp → Option (List Nat × String)
+  | .list [.atom "add", i] => i.nat? >>= fun i =>
+      match sisAdd data i with
+      | .ok d => some (d, showNatList d)
+      | .error e => some (data, showErr e)
+  | .list [.atom "discard", i] => i.nat? >>= fun i =>
+      match sisDiscard data i with
+      | .ok d => some (d, showNatList d)
+      | .error e => some (data, showErr e)
+  | .list [.atom "update", o] => other? o >>= fun o =>
+      match sisUpdate data o with
+      | .ok d => some (d, showNatList d)
+      | .error e => some (data, showErr e)
+  | .list [.atom "iupd", o] => other? o >>= fun o => let d := sisIntersection data o; some (d, showNatList d)
+  | .list [.atom "dupd", o] => other? o >>= fun o => let d := sisDifference data o; some (d, showNatList d)
+  | .list [.atom "invupd", n] => n.nat? >>= fun n =>
+      match sisInvertUpdate data n with
+      | .ok d => some (d, showNatList d)
+      | .error e => some (data, showErr e)
+  | .list [.atom "clear"] => some ([], "()")
+  | .list [.atom "union", o] => other? o >>= fun o => some (data, showE showNatList (sisUpdate data o))
+  | .list [.atom "inter", o] => other? o >>= fun o => some (data, showNatList (sisIntersection data o))
+  | .list [.atom "diff", o] => other? o >>= fun o => some (data, showNatList (sisDifference data o))
+  | .list [.atom "invert", n] => n.nat? >>= fun n => some (data, showE showNatList (sisInvertUpdate data n))
+  | .list [.atom "copy"] => some (data, showNatList data)
+  | .list [.atom "contains", i] => i.nat? >>= fun i => some (data, showE showBool (sisContains data i))
+  | .list [.atom "iter"] => some (data, showNatList data)
+  | .list [.atom "len"] => some (data, toString data.length)
+  | .list [.atom "bool"] => some (data, showBool (!data.isEmpty))
+  | .list [.atom "first"] => some (data, showOptNat (sisFirst data))
+  | .list [.atom "last"] => some (data, showOptNat (sisLast data))
+  | .list [.atom "before", i] => i.int? >>= fun i => some (data, showE showOptNat (sisBefore data i))
+  | .list [.atom "after", i] => i.int? >>= fun i => some (data, showE showOptNat (sisAfter data i))
+  | _ => none
+
+def showInner : Inner → String
+  | .bits b => showNatList b
+  | .sorted d => showNatList d
+
+/-- One op on a `ReverseIdSet`. -/
+def revOp (r : Rev) : SExp → Option (Rev × String)
+  | .list [.atom "add", i] => i.nat? >>= fun i =>
+      match r.add i with
+      | .ok r' => some (r', showInner r'.inner)
+      | .error e => some (r, showErr e)
+  | .list [.atom "discard", i] => i.nat? >>= fun i =>
+      match r.discard i with
+      | .ok r' => some (r', showInner r'.inner)
+      | .error e => some (r, showErr e)
+  | .list [.atom "contains", i] => i.nat? >>= fun i => some (r, showE showBool (r.contains i))
+  | .list [.atom "iter"] => some (r, showNatList r.iter)
+  | .list [.atom "len"] => some (r, showE toString r.len)
+  | .list [.atom "first"] => some (r, showOptNat r.first)
+  | .list [.atom "last"] => some (r, showE showOptNat r.last)
+  | _ => none
+
+def multiOp (m : Multi) : SExp → Option (Multi × String)
+  | .list [.atom "contains", i] => i.nat? >>= fun i => some (m, showE showBool (m.contains i))
+  | .list [.atom "iter"] => some (m, showNatList m.iter)
+  | .list [.atom "len"] => some (m, showE toString m.len)
+  | _ => none
+
+/-- Run a program, collecting the observations. -/
+def runOps {σ} (step : σ → SExp → Option (σ × String)) : σ → List SExp → List String → Option (List String)
+  | _, [], acc => some acc.reverse
+  | s, op :: ops, acc =>
+    match step s op with
+    | none => none
+    | some (s', obs) => runOps step s' ops (obs :: acc)
+
+def reply : Option (List String) → String
+  | none => "bad-op"
+  | some obs => "(" ++ " ".intercalate obs ++ ")"
+
+def inner? : SExp → Option Inner
+  | .list [.atom "bits", l] => l.natList? >>= fun xs => some (Inner.bits (ofSource xs true 0))
+  | .list [.atom "sorted", l] => l.natList? >>= fun xs => some (Inner.sorted (sisOfSource xs))
+  | _ => none
+
+/-! The same programs over the specification (`WM.Spec.IdSet`): the set is a strictly ascending
+list; an op's observation is the set after the op (mutators, constructors) or the answer. -/
+open WM.Spec.IdSet in
+def specOp (s : List Nat) : SExp → Option (List Nat × String)
+  | .list [.atom "add", i] => i.nat? >>= fun i => let t := insert i s; some (t, showNatList t)
+  | .list [.atom "discard", i] => i.nat? >>= fun i => let t := erase i s; some (t, showNatList t)
+  | .list [.atom "update", .list [_, l]] => l.natList? >>= fun l => let t := union s l; some (t, showNatList t)
+  | .list [.atom "iupd", .list [_, l]] => l.natList? >>= fun l => let t := inter s l; some (t, showNatList t)
+  | .list [.atom "dupd", .list [_, l]] => l.natList? >>= fun l => let t := diff s l; some (t, showNatList t)
+  | .list [.atom "invupd", n] => n.nat? >>= fun n => let t := invert n s; some (t, showNatList t)
+  | .list [.atom "clear"] => some ([], "()")
+  | .list [.atom "union", .list [_, l]] => l.natList? >>= fun l => some (s, showNatList (union s l))
+  | .list [.atom "inter", .list [_, l]] => l.natList? >>= fun l => some (s, showNatList (inter s l))
+  | .list [.atom "diff", .list [_, l]] => l.natList? >>= fun l => some (s, showNatList (diff s l))
+  | .list [.atom "invert", n] => n.nat? >>= fun n => some (s, showNatList (invert n s))
+  | .list [.atom "copy"] => some (s, showNatList s)
+  | .list [.atom "contains", i] => i.nat? >>= fun i => some (s, showBool (mem s i))
+  | .list [.atom "iter"] => some (s, showNatList s)
+  | .list [.atom "len"] => some (s, toString s.length)
+  | .list [.atom "bool"] => some (s, showBool (!s.isEmpty))
+  | .list [.atom "first"] => some (s, showOptNat (first s))
+  | .list [.atom "last"] => some (s, showOptNat (last s))
+  | .list [.atom "before", i] => i.int? >>= fun i => some (s, showOptNat (before s i))
+  | .list [.atom "after", i] => i.int? >>= fun i => some (s, showOptNat (after s i))
+  | _ => none
+
+def idset : List SExp → String
+  -- BitSet(source, size): `(src (list) sized size)`; BitSet.from_bytes: `(bytes hex)`
+  | .atom "bitset" :: .list [.atom "src", l, sized, size] :: ops =>
+    match l.natList?, sized.bool?, size.nat? with
+    | some l, some sized, some size => reply (runOps bitsOp (ofSource l sized size) ops [])
+    | _, _, _ => "bad-op"
+  | .atom "bitset" :: .list [.atom "bytes", .atom hex] :: ops =>
+    match hexBytes? hex with
+    | some bs => reply (runOps bitsOp bs ops [])
+    | none => "bad-op"
+  | .atom "ondisk" :: .atom hex :: basepos :: count :: ops =>
+    match hexBytes? hex, basepos.nat?, count.nat? with
+    | some bs, some bp, some c => reply (runOps bitsOp (onDisk bs bp c) ops [])
+    | _, _, _ => "bad-op"
+  | .atom "sorted" :: l :: ops =>
+    match l.natList? with
+    | some l => reply (runOps sisOp (sisOfSource l) ops [])
+    | none => "bad-op"
+  | .atom "rev" :: inner :: limit :: ops =>
+    match inner? inner, limit.nat? with
+    | some i, some lim => reply (runOps revOp ⟨i, lim⟩ ops [])
+    | _, _ => "bad-op"
+  | .atom "multi" :: .list parts :: ops =>
+    let ps := parts.mapM fun p => match p with
+      | .list [i, off] => (inner? i) >>= fun i => off.nat? >>= fun o => some (i, o)
+      | _ => none
+    match ps with
+    | some ps => reply (runOps multiOp ⟨ps.map (·.1), ps.map (·.2)⟩ ops [])
+    | none => "bad-op"
+  | .atom "spec" :: l :: ops =>
+    match l.natList? with
+    | some l => reply (runOps specOp (WM.Spec.IdSet.ofList l) ops [])
+    | none => "bad-op"
+  | _ => "bad-op"
+
+/-! ## number lists -/
+open WM.NumLists in
+def tc? : SExp → Option TC
+  | .atom "b" => some .b | .atom "B" => some .B | .atom "h" => some .h | .atom "H" => some .H
+  | .atom "i" => some .i | .atom "I" => some .I | .atom "q" => some .q | .atom "Q" => some .Q
+  | _ => none
+
+open WM.NumLists in
+def showTC : TC → String
+  | .b => "b" | .B => "B" | .h => "h" | .H => "H" | .i => "i" | .I => "I" | .q => "q" | .Q => "Q"
+
+open WM.NumLists in
+/-- `ga <inittype> <allow_longs> (n ...)`: typecode and error flag after every append, the final
+    contents and the bytes `to_file` writes. -/
+def gaRun (g : GA) : List Int → List String → GA × List String
+  | [], acc => (g, acc.reverse)
+  | n :: ns, acc =>
+    let (g', e) := g.append n
+    gaRun g' ns ((showTC g'.tc ++ (if e then "!" else "")) :: acc)
+
+open WM.NumLists in
+def numlists : List SExp → Option String
+  | [.atom "delta-enc", l] => l.intList? >>= fun l => some (showIntList (deltaEncode l))
+  | [.atom "delta-dec", l] => l.intList? >>= fun l => some (showIntList (deltaDecode l))
+  | [.atom "ga", tc, al, l] => do
+    let tc ← tc? tc
+    let al ← al.bool?
+    let l ← l.intList?
+    let (g, obs) := gaRun ⟨tc, [], al⟩ l []
+    some s!"({" ".intercalate obs}) {showIntList g.items} {showHex g.toBytes} {showList (fun k => showOpt toString (readItem g.tc g.toBytes k)) (List.range (g.items.length + 1))}"
+  | [.atom "fixed-write", size, l] => do
+    let size ← size.nat?
+    let l ← l.natList?
+    some (match writeFixed size l with | some bs => showHex bs | none => "err")
+  | [.atom "fixed-read", size, n, .atom hex] => do
+    let size ← size.nat?
+    let n ← n.nat?
+    let bs ← hexBytes? hex
+    some (match readFixed size n bs with
+      | some (xs, r) => s!"{showNatList xs} {showHex r}"
+      | none => "err")
+  | [.atom "fixed-get", size, .atom hex, pos, i] => do
+    let size ← size.nat?
+    let bs ← hexBytes? hex
+    let pos ← pos.nat?
+    let i ← i.nat?
+    some (showOpt toString (getFixed size bs pos i))
+  | [.atom "varints-write", l] => l.natList? >>= fun l => some (showHex (writeVarints l))
+  | [.atom "varints-read", n, .atom hex] => do
+    let n ← n.nat?
+    let bs ← hexBytes? hex
+    some (match readVarints n bs with
+      | some (xs, r) => s!"{showNatList xs} {showHex r}"
+      | none => "err")
+  | _ => none
+
+/-! ## hash files -/
+open WM.HashFile in
+/-- `hash <startoffset> ((keyhex hash vallen valtag) ...) ((lookupkeyhex hash) ...) (closestkeyhex ...)`
+    Values are `(tag, length)` pairs; the hash function is the finite map given by the request. -/
+def hashfile : List SExp → Option String
+  | [so, .list kvs, .list lookups, .list closest] => do
+    let so ← so.nat?
+    let kvs ← kvs.mapM fun e => match e with
+      | .list [.atom k, h, vl, vt] => do
+        let k ← hexBytes? k
+        some (k, ← h.nat?, ← vl.nat?, ← vt.nat?)
+      | _ => none
+    let lookups ← lookups.mapM fun e => match e with
+      | .list [.atom k, h] => do some (← hexBytes? k, ← h.nat?)
+      | _ => none
+    let closest ← closest.mapM fun e => match e with
+      | .atom k => hexBytes? k
+      | _ => none
+    let table : List (Key × Nat) := kvs.map (fun (k, h, _, _) => (k, h)) ++ lookups
+    let hm : Std.HashMap Key Nat := table.foldl (fun m (k, h) => if m.contains k then m else m.insert k h) {}
+    let hash : Key → Nat := fun k => (hm.get? k).getD 0
+    let vlen : Nat × Nat → Nat := fun v => v.2
+    match build hash vlen so (kvs.map fun (k, _, vl, vt) => (k, (vt, vl))) with
+    | none => some "nonterminating"
+    | some f =>
+      let poss := showNatList (f.recs.map (·.pos))
+      let tabs := (List.range 256).filterMap fun b =>
+        match f.tables[b]? with
+        | some t => if t.isEmpty then none else
+            some s!"({b} {tablePos f b} {" ".intercalate (t.map fun s => s!"({s.1} {s.2})")})"
+        | none => some s!"({b} missing)"
+      let looks := lookups.map fun (k, _) => showNatList ((all hash f k).map (·.1))
+      let ordered := orderedKeysOk [] (kvs.map (·.1))
+      let tc := ((WM.NumLists.GA.mk .H [] true).extend (f.index.map Int.ofNat)).1.tc
+      let cl := closest.map fun k =>
+        match closestKey f k, itemsFrom vlen f k with
+        | .ok ck, .ok items => s!"({showOpt showHex ck} {items.length})"
+        | _, _ => "err"
+      let its := showList (fun (kv : Key × (Nat × Nat)) => s!"({showHex kv.1} {kv.2.1})") (items vlen f)
+      some s!"{poss} {f.endofdata} ({" ".intercalate tabs}) ({" ".intercalate looks}) {showBool ordered} {showTC tc} ({" ".intercalate cl}) {its}"
+  | _ => none
+
+/-! ## external sort, compound files, base 85 -/
+def misc : List SExp → Option String
+  | [.atom "sort", ms, mf, l] => do
+    let ms ← ms.nat?
+    let mf ← mf.nat?
+    let l ← l.intList?
+    some (match WM.Sort.sortAll (fun (a b : Int) => decide (a ≤ b)) ms mf l with
+      | .ok out => showIntList out
+      | .error e => showErr e)
+  | [.atom "compound-assemble", .atom before, .list files] => do
+    let before ← hexBytes? before
+    let files ← files.mapM fun e => match e with
+      | .list [.atom n, .atom d] => (hexBytes? d).map fun d => (n, d)
+      | _ => none
+    let (blob, dir, dirpos) := WM.Compound.assemble before files
+    let reads := files.map fun (n, _) => showOpt showHex (WM.Compound.openFile blob dir n)
+    some s!"{showList (fun (e : WM.Compound.Entry) => s!"({e.name} {e.offset} {e.length})") dir} {dirpos} ({" ".intercalate reads})"
+  | [.atom "compound-writer", bs, .list ops] => do
+    let bs ← bs.int?
+    let w ← ops.foldlM (fun (w : WM.Compound.Writer) e => match e with
+      | .list [.atom "c", .atom n] => some (w.createFile n)
+      | .list [.atom "w", .atom n, .atom d] => (hexBytes? d).map fun d => w.write n d
+      | _ => none) ⟨bs, [], []⟩
+    let blocks := w.streams.map fun (n, ss) =>
+      let bl := ss.close.blocks.map fun b => match b with
+        | .temp o l => s!"(t {o} {l})"
+        | .buf l => s!"(b {l})"
+      s!"({n} {" ".intercalate bl})"
+    let rb := w.readback.map fun (n, d) => s!"({n} {showHex d})"
+    some s!"({" ".intercalate blocks}) ({" ".intercalate rb}) {w.temp.length}"
+  | [.atom "b85", x, islong] => do
+    let x ← x.nat?
+    let il ← islong.bool?
+    some (match WM.Base85.toBase85 x il with | some cs => showHex cs | none => "err")
+  | [.atom "b85-dec", .atom hex] => do
+    let cs ← hexBytes? hex
+    some (showOpt toString (WM.Base85.fromBase85 cs))
+  | _ => none
 
 def handle : List SExp → String
   | [.atom "varint-enc", n] =>
@@ -22,6 +355,10 @@ def handle : List SExp → String
     match n.nat? with
     | some k => toString (WM.Varint.unzigzag k)
     | none => "bad-op"
+  | .atom "idset" :: rest => idset rest
+  | .atom "num" :: rest => (numlists rest).getD "bad-op"
+  | .atom "hash" :: rest => (hashfile rest).getD "bad-op"
+  | .atom "misc" :: rest => (misc rest).getD "bad-op"
   | _ => "bad-op"
 
 end WM.Drv.C20
